@@ -291,7 +291,10 @@ def mk_archive(kind, dim, sd, md, seed):
 def evaluate(sols):
     sols = np.asarray(sols, dtype=np.float64)
     obj = -np.sum(sols**2, axis=1)
-    meas = np.clip(sols[:, :2], -1e6, 1e6)
+    meas = np.zeros((len(sols), 2))                 # solution_dim == 1: the second measure is 0
+    cols = min(2, sols.shape[1]) if sols.ndim == 2 else 0
+    if cols:
+        meas[:, :cols] = np.clip(sols[:, :cols], -1e6, 1e6)
     return obj, meas
 
 
@@ -1000,6 +1003,11 @@ def make_gen(points, n_iter_lo, n_iter_hi):
         it["i"] += 1
         dim = rng.choice([2, 3, 4])
         batch = rng.choice([1, 2, 3, 5])
+        if kind in CLIP_KINDS + ISO_KINDS + GOP_KINDS and rng.random() < 0.2:
+            # one-dimensional solution spaces (the operator emitters and GradientOperatorEmitter only), mostly with
+            # several rows: (batch, 1) arrays are where squeezes and broadcasts go wrong
+            dim = 1
+            batch = rng.choice([2, 3, 5, 1])
         case = {"kind": kind, "sd": sd, "md": md, "bounds": b, "arch": a, "state": s, "dim": dim,
                 "seed": rng.randrange(1 << 30), "aseed": rng.randrange(1 << 30)}
         if kind in CLIP_KINDS + ISO_KINDS + GOP_KINDS:
